@@ -430,3 +430,88 @@ Proof.
   apply (G (filter (matches bear_row args) (number 0 rules)) []); [|exact E].
   right. intros Hnil. rewrite Hnil in H0. destruct H0.
 Qed.
+
+(* ---------- second level: calls made by the rules themselves ---------- *)
+(* a template: inside rule (tcaller, registration trule) the function tcallee is called with required arguments
+   ranging over treq and every optional argument passed in one of the listed ways *)
+Record tmpl := mktmpl {
+  tcaller : string; trule : N; tcallee : string;
+  treq : list (list positive); topt : list (list aform)
+}.
+
+Definition mem (r : positive) (l : list positive) : bool := existsb (Pos.eqb r) l.
+Definition subset (a b : list positive) : bool := forallb (fun r => mem r b) a.
+
+Fixpoint nonpos_okb (opt : list aform) (ch : list (list positive)) : bool :=
+  match opt, ch with
+  | [], [] => true
+  | Omit :: o', _ :: ch' => nonpos_okb o' ch'
+  | Kw r :: o', c :: ch' => mem r c && nonpos_okb o' ch'
+  | _, _ => false
+  end.
+Fixpoint form_okb (opt : list aform) (ch : list (list positive)) : bool :=
+  match opt, ch with
+  | [], [] => true
+  | Pos r :: o', c :: ch' => mem r c && form_okb o' ch'
+  | _, _ => nonpos_okb opt ch
+  end.
+
+Definition tmpl_ok (specs : list fspec) (t : tmpl) : bool :=
+  match find (fun fs => String.eqb (fname fs) (tcallee t)) specs with
+  | Some fs => all2 subset (treq t) (freq fs) && forallb (fun opt => form_okb opt (fopt fs)) (prod (topt t))
+  | None => false
+  end.
+
+Lemma mem_In : forall r l, mem r l = true -> In r l.
+Proof.
+  intros r l H. unfold mem in H. apply existsb_exists in H. destruct H as (x & Hx & E).
+  apply Pos.eqb_eq in E. now subst.
+Qed.
+
+Lemma nonpos_okb_sound : forall opt ch, nonpos_okb opt ch = true -> nonpos_ok opt ch.
+Proof.
+  induction opt as [|a o IH]; intros [|c ch] H; cbn in *; try discriminate; try exact I.
+  - destruct a; discriminate.
+  - destruct a as [r|r|]; try discriminate.
+    + apply andb_true_iff in H. destruct H as (H1 & H2). split; [now apply mem_In | now apply IH].
+    + now apply IH.
+Qed.
+
+Lemma form_okb_sound : forall opt ch, form_okb opt ch = true -> form_ok opt ch.
+Proof.
+  induction opt as [|a o IH]; intros [|c ch] H.
+  - exact I.
+  - cbn in H. discriminate.
+  - cbn in H. destruct a; discriminate.
+  - destruct a as [r|r|].
+    + cbn [form_okb] in H. apply andb_true_iff in H. destruct H as (H1 & H2).
+      cbn [form_ok]. split; [now apply mem_In | now apply IH].
+    + cbn [form_okb] in H. cbn [form_ok]. now apply nonpos_okb_sound.
+    + cbn [form_okb] in H. cbn [form_ok]. now apply nonpos_okb_sound.
+Qed.
+
+Lemma subset_Forall2 : forall (sets choices : list (list positive)) (req : list positive),
+  all2 subset sets choices = true -> Forall2 (fun a c => In a c) req sets -> Forall2 (fun a c => In a c) req choices.
+Proof.
+  induction sets as [|s sets IH]; intros [|c choices] req H F; cbn in H; try discriminate.
+  - inversion F. constructor.
+  - inversion F as [|a s' req' sets' Ha F']; subst.
+    apply andb_true_iff in H. destruct H as (H1 & H2).
+    constructor.
+    + unfold subset in H1. rewrite forallb_forall in H1. apply mem_In. now apply H1.
+    + now apply IH.
+Qed.
+
+Lemma tmpl_ok_sound : forall specs t, tmpl_ok specs t = true ->
+  exists fs, In fs specs /\ fname fs = tcallee t /\
+    forall req opt, In req (prod (treq t)) -> In opt (prod (topt t)) ->
+      Forall2 (fun a c => In a c) req (freq fs) /\ form_ok opt (fopt fs).
+Proof.
+  intros specs t H. unfold tmpl_ok in H.
+  destruct (find (fun fs => String.eqb (fname fs) (tcallee t)) specs) as [fs|] eqn:F; [|discriminate].
+  apply find_some in F. destruct F as (Hin & Hn). apply String.eqb_eq in Hn.
+  apply andb_true_iff in H. destruct H as (H1 & H2). rewrite forallb_forall in H2.
+  exists fs. repeat split; try assumption.
+  - apply (subset_Forall2 (treq t)); [exact H1 | now apply in_prod].
+  - apply form_okb_sound. now apply H2.
+Qed.
